@@ -89,6 +89,9 @@ Inductive exec (p : program) : stmt -> cstate -> cstate -> Prop :=
     exec p (Call rets f args) st (CS (upd_list (env st) rets vs) (heap st') (next st'))
 | E_Seq : forall s1 s2 st st1 st2,
     exec p s1 st st1 -> exec p s2 st1 st2 -> exec p (Seq s1 s2) st st2
+(* the rest of a sequence may be skipped: exception, early return, break, continue *)
+| E_SeqStop : forall s1 s2 st st1,
+    exec p s1 st st1 -> exec p (Seq s1 s2) st st1
 | E_IfL : forall s1 s2 st st', exec p s1 st st' -> exec p (If s1 s2) st st'
 | E_IfR : forall s1 s2 st st', exec p s2 st st' -> exec p (If s1 s2) st st'
 | E_LoopEnd : forall s st, exec p (Loop s) st st
@@ -156,7 +159,11 @@ Section AEXEC.
       | None => None
       | Some ac => Some (aset_list a rets (map (aget ac) (seq 0 (length rets))))
       end
-    | Seq s1 s2 => match aexec s1 a with Some a1 => aexec s2 a1 | None => None end
+    | Seq s1 s2 =>
+      match aexec s1 a with
+      | Some a1 => match aexec s2 a1 with Some a2 => Some (ajoin a1 a2) | None => None end
+      | None => None
+      end
     | If s1 s2 =>
       match aexec s1 a, aexec s2 a with
       | Some a1, Some a2 => Some (ajoin a1 a2)
